@@ -248,11 +248,35 @@ func (it *zzIter) SeekLT(key string) bool {
 
 // ---- factory
 
-type zzFactory struct{ kv *zzKV }
+type zzFactory struct {
+	kv   *zzKV
+	snap []zzEnt // content installed by a completed snapshot load
+}
+
+type zzLoader struct {
+	f        *zzFactory
+	chunks   int
+	complete bool
+}
+
+func (l *zzLoader) Close() error { return nil }
+func (l *zzLoader) AddChunk(string, int32, int32, []byte) error {
+	l.chunks++
+	return nil
+}
+func (l *zzLoader) Complete() {
+	l.complete = true
+	l.f.kv.ents = l.f.snap
+	l.f.kv.durable = l.f.snap
+}
 
 func (f *zzFactory) Close() error { return nil }
 func (f *zzFactory) NewKV(string, int64) (kvq.KV, error) {
 	f.kv.closed = false
 	return f.kv, nil
 }
-func (f *zzFactory) NewSnapshotLoader(string, int64) (kvq.SnapshotLoader, error) { return nil, nil }
+func (f *zzFactory) NewSnapshotLoader(string, int64) (kvq.SnapshotLoader, error) {
+	// the real loader removes the existing database directory first
+	f.kv.ents, f.kv.durable = nil, nil
+	return &zzLoader{f: f}, nil
+}
